@@ -180,7 +180,7 @@ def r3_no_shared_mutable_state(ctx):
         m, fn, cls = prog.funcs[q]
         s = prog.summ[q]
         n += 1
-        bad = []
+        bad, untyped = [], []
         # result *is* an operand object
         returns_object = bool(s.ret_types & {"Quantity", "Magnitude"})
         for (i, path, cond) in s.ret_alias:
@@ -194,8 +194,14 @@ def r3_no_shared_mutable_state(ctx):
                 continue     # established immutable (number / None) on every path that stores it
             types = _types_at(prog, q, i, path, cond)
             mt = [t for t in types if _is_mutable(t, mutable)]
-            if mt:
+            if mt and all(t is None for t in mt):
+                untyped.append(f"result.{fp} comes from {_pname(prog, q, i)}{''.join('.' + p for p in path)}, whose type the analysis does not know")
+            elif mt:
                 bad.append(f"result.{fp} aliases {_pname(prog, q, i)}{''.join('.' + p for p in path)} (mutable type {sorted(map(str, mt))})")
+        if untyped and not bad:
+            # nothing is known about the object: neither a mutable class (a violation) nor an immutable one
+            ctx.form(False, m.relpath, q, "result shares no mutable object with an operand", detail=sorted(untyped)[:3])
+            continue
         ctx.check(not bad, m.relpath, q, "result shares no mutable object with an operand", detail=sorted(bad)[:5] or None,
                   expected="operand-reachable objects stored in a result are of effectively immutable classes")
     ctx.floor("entry points", n, 34)
